@@ -15,7 +15,7 @@ def run(pid, tier, seed):
     vlib.record_trace(exe, ["zoo"], tp)
     events = [json.loads(x) for x in open(tp) if x.strip()]
     # binding A: the chain TLC prints for every category, compared with every instance of that category
-    cfg = os.path.join(vlib.cfg_dir(), "IprVisitorMC-%s.cfg" % pid)
+    cfg = os.path.join(vlib.cfg_dir(), "IprVisitorMC-%s-%d.cfg" % (pid, os.getpid()))
     vlib.write_cfg(cfg, spec="Spec", invariants=["Emit"])
     lines = []
 
